@@ -376,6 +376,15 @@ def check_real(case):
         notation, v = to, out
 
 
+def _real_fill(u):
+    """A real in [-720, 720] x source notation x a chain of three conversions (edge indices from the remaining coordinates)."""
+    src, r = S.u_pick(u[1], ["dec", "gon", "rad", "deca", "gona"])
+    k1, r = S.u_pick(r, list(range(8)))
+    k2, r = S.u_pick(u[2], list(range(8)))
+    k3, r = S.u_pick(r, list(range(8)))
+    return {"x": -720.0 + 1440.0 * u[0], "src": src, "chain": [k1, k2, k3], "num": "float"}
+
+
 real_cases = st.fixed_dictionaries({
     "x": st.one_of(S.floats(-720.0, 720.0), S.floats(-360.0, 360.0), S.floats(-1.0, 1.0),
                    st.sampled_from([0.0, -0.0, 720.0, -720.0, 29.9999999999999, -0.9999999999999999, 359.99999999999994,
@@ -505,6 +514,9 @@ SUBCHECKS = [
     SubCheck("chains_from_reals", check_real, strategy=real_cases, classes=_cls_chain,
              quick=4000, thorough=400000, shards_quick=4, shards_thorough=16,
              rule="random reals in [-720, 720] as dec / gon / rad numbers and objects through random chains of 1..3 conversions"),
+    SubCheck("reals_fill", check_real, enumerate=S.fill(808, 3, _real_fill, 60000, 1200000), classes=_cls_chain,
+             shards_quick=12, shards_thorough=16,
+             rule="low-discrepancy fill of reals in [-720, 720] x source notation x chains of three conversions: 60 000 / 1 200 000 chains"),
     SubCheck("invalid_hp_rejected", check_invalid, strategy=invalid_fields(), quick=2000, thorough=100000, shards_quick=2,
              shards_thorough=4, rule="HP literals with minutes or seconds field >= 60: hp2dec and HPAngle raise ValueError"),
 ]
